@@ -53,6 +53,12 @@ SPECS = {
     'calc_base_height': dict(file='utils/utils.py', params={'vals': 'List Rat', 'lookback_perc': 'Rat', 'height_perc': 'Rat'},
                              ret='Rat', raises=True, elementwise=False,
                              externals={'np.percentile': ('pctl', 'List Rat → Rat → Rat', ('List Rat', 'Rat'), 'Rat')}),
+    'minrange2minmax': dict(file='scaler.py', params={'vals': 'List PyFloat', 'min_range': 'Rat'}, ret='Rat × Rat', raises=False,
+                            elementwise=False,
+                            externals={'np.nanmax': ('nanmax', 'List PyFloat → Rat', ('List PyFloat',), 'Rat'),
+                                       'np.nanmin': ('nanmin', 'List PyFloat → Rat', ('List PyFloat',), 'Rat')}),
+    '_ncd_or_nsc': dict(file='data.py', cls='CeiloChunk', params={}, attrs={'_clouds_above_msa_buffer': 'Bool'},
+                        ret='String', raises=False, elementwise=False, lean_name='ncd_or_nsc'),
     # a method: `self.prms['KEY']` becomes the parameter KEY (the chunk's own parameter snapshot)
     '_get_min_sep_for_height': dict(file='data.py', cls='CeiloChunk', params={'height': 'Rat'},
                                     prms={'MIN_SEP_LIMS': 'List Rat', 'MIN_SEP_VALS': 'List Rat'},
@@ -148,6 +154,12 @@ class Tr:
             return self.compare(n, env, binds)
         if isinstance(n, ast.BinOp):
             return self.binop(n, env, binds)
+        if isinstance(n, ast.Attribute) and isinstance(n.value, ast.Name) and n.value.id == 'self' \
+                and n.attr in self.spec.get('attrs', {}):
+            return n.attr, self.spec['attrs'][n.attr]
+        if isinstance(n, ast.Tuple) and len(n.elts) == 2:
+            (a, ta), (b, tb) = self.expr(n.elts[0], env, binds), self.expr(n.elts[1], env, binds)
+            return f'({a}, {b})', f'{ta} × {tb}'
         if isinstance(n, ast.List):
             if not n.elts:
                 return '[]', 'List ?'
@@ -651,6 +663,7 @@ def translate_function(src_root: Path, name: str):
         return None, f'{spec["file"]}:{name}: {e}'
     params = ' '.join([f'({e[0]} : {e[1]})' for e in spec.get('externals', {}).values()] +
                       [f'({p} : {t})' for p, t in spec.get('prms', {}).items()] +
+                      [f'({p} : {t})' for p, t in spec.get('attrs', {}).items()] +
                       [f'({p} : {t})' for p, t in spec['params'].items()])
     ret = f'Except AmpyErr ({spec["ret"]})' if spec['raises'] else spec['ret']
     text = f'def {LEAN_NAME[name]} {params} : {ret} :=\n  {"".join(pre)}{body}\n'
